@@ -1,6 +1,6 @@
 (* C03 — proofs.  All statements are for every class layout / size / parameter /
    draw sequence; induction over lists and fuel, no bounded sweeps. *)
-From Coq Require Import ZArith List Bool Lia ZifyBool Permutation Sorted Arith Floats.
+From Coq Require Import ZArith List Bool Lia ZifyBool Permutation Sorted Arith.
 Import ListNotations.
 From KD Require Import C03.Model C03.Spec.
 Open Scope Z_scope.
@@ -289,15 +289,13 @@ Proof. rewrite class_filter_spec_l. apply filter_sorted, zrange_sorted. Qed.
 (* ------------------------------------------------------------------ *)
 (* ranges: PercentFilterWrapper, SubsetWrapper                         *)
 (* ------------------------------------------------------------------ *)
-(* what the theorems need of the percent -> index map on a dataset of size n
-   (checked for the binary64 instance fcut on every generated case, not proved) *)
-Definition cut_contract (cut : cut_t) (n : Z) : Prop :=
-  (forall c, cut c 0%float n = 0) /\ (forall c, cut c 1%float n = n) /\
-  (forall c p, pct_ok p = true -> 0 <= cut c p n <= n) /\
-  (forall p q, pct_ok p = true -> pct_ok q = true -> PrimFloat.leb p q = true -> cut false p n <= cut false q n).
-
-Lemma pct_ok_0 : pct_ok 0%float = true. Proof. reflexivity. Qed.
-Lemma pct_ok_1 : pct_ok 1%float = true. Proof. reflexivity. Qed.
+(* what the theorems need of the percent operations on a dataset of size n (for the binary64
+   instance float_ops the computable clauses are checked on every generated case, not proved) *)
+Definition pct_contract {P} (O : pct_ops P) (n : Z) : Prop :=
+  p_ok O (p_zero O) = true /\ p_ok O (p_one O) = true /\
+  (forall p, p_ok O p = true -> p_leb O (p_zero O) p = true /\ p_leb O p (p_one O) = true) /\
+  (forall c, p_cut O c (p_zero O) n = 0) /\ (forall c, p_cut O c (p_one O) n = n) /\
+  (forall c p, p_ok O p = true -> 0 <= p_cut O c p n <= n).
 
 Lemma block_contiguous_l a b :
   zlen (zrange a b) = Z.max 0 (b - a) /\
@@ -307,9 +305,9 @@ Proof. split. apply zlen_zrange. apply zrange_nth. Qed.
 Lemma three_blocks a b n : 0 <= a <= b -> b <= n -> zrange 0 a ++ zrange a b ++ zrange b n = zrange 0 n.
 Proof. intros. rewrite (zrange_app a b n), (zrange_app 0 a n) by lia. reflexivity. Qed.
 
-Lemma percent_filter_block cut n f t cf ct out :
-  percent_filter_g cut n f t cf ct = Some out ->
-  out = zrange (cut cf (odflt f 0%float) n) (cut ct (odflt t 1%float) n).
+Lemma percent_filter_block {P} (O : pct_ops P) n f t cf ct out :
+  percent_filter_g O n f t cf ct = Some out ->
+  out = zrange (p_cut O cf (odflt f (p_zero O)) n) (p_cut O ct (odflt t (p_one O)) n).
 Proof. unfold percent_filter_g. destruct (_ && _); congruence. Qed.
 
 Lemma subset_range_block n s e out :
@@ -320,36 +318,36 @@ Proof.
   destruct (Z.leb_spec (odflt s 0) (Z.min (odflt e n) n)); intros E; inversion E. auto.
 Qed.
 
-Lemma subset_percent_block cut n s e out :
-  subset_percent_g cut n s e = Some out ->
-  out = zrange (cut false (odflt s 0%float) n) (cut false (odflt e 1%float) n).
+Lemma subset_percent_block {P} (O : pct_ops P) n s e out :
+  subset_percent_g O n s e = Some out ->
+  out = zrange (p_cut O false (odflt s (p_zero O)) n) (p_cut O false (odflt e (p_one O)) n).
 Proof.
   unfold subset_percent_g. destruct (negb (is_some s || is_some e)). discriminate.
-  destruct (negb _). discriminate. destruct (PrimFloat.leb _ _); congruence.
+  destruct (negb _). discriminate. destruct (p_leb O _ _); congruence.
 Qed.
 
-Lemma percent_filter_partition cut n p q c1 c2 :
-  cut_contract cut n -> pct_ok p = true -> pct_ok q = true -> cut c1 p n <= cut c2 q n ->
+Lemma percent_filter_partition {P} (O : pct_ops P) n p q c1 c2 :
+  pct_contract O n -> p_ok O p = true -> p_ok O q = true -> p_cut O c1 p n <= p_cut O c2 q n ->
   exists A B D,
-    percent_filter_g cut n None (Some p) false c1 = Some A /\
-    percent_filter_g cut n (Some p) (Some q) c1 c2 = Some B /\
-    percent_filter_g cut n (Some q) None c2 false = Some D /\
+    percent_filter_g O n None (Some p) false c1 = Some A /\
+    percent_filter_g O n (Some p) (Some q) c1 c2 = Some B /\
+    percent_filter_g O n (Some q) None c2 false = Some D /\
     A ++ B ++ D = zrange 0 n.
 Proof.
-  intros (H0 & H1 & Hb & _) Hp Hq Hle. unfold percent_filter_g. simpl odflt.
-  rewrite Hp, Hq, pct_ok_0, pct_ok_1. simpl. do 3 eexists. repeat split.
+  intros (Hz & Ho & _ & H0 & H1 & Hb) Hp Hq Hle. unfold percent_filter_g. cbn [odflt].
+  rewrite Hp, Hq, Hz, Ho. cbn [andb]. do 3 eexists. repeat split.
   rewrite H0, H1. apply three_blocks. pose proof (Hb c1 p Hp). lia. apply Hb; auto.
 Qed.
 
-Lemma percent_filter_partition2 cut n p c :
-  cut_contract cut n -> pct_ok p = true ->
+Lemma percent_filter_partition2 {P} (O : pct_ops P) n p c :
+  pct_contract O n -> p_ok O p = true ->
   exists A D,
-    percent_filter_g cut n None (Some p) false c = Some A /\
-    percent_filter_g cut n (Some p) None c false = Some D /\
+    percent_filter_g O n None (Some p) false c = Some A /\
+    percent_filter_g O n (Some p) None c false = Some D /\
     A ++ D = zrange 0 n.
 Proof.
-  intros (H0 & H1 & Hb & _) Hp. unfold percent_filter_g. simpl odflt.
-  rewrite Hp, pct_ok_0, pct_ok_1. simpl. do 2 eexists. repeat split.
+  intros (Hz & Ho & _ & H0 & H1 & Hb) Hp. unfold percent_filter_g. cbn [odflt].
+  rewrite Hp, Hz, Ho. cbn [andb]. do 2 eexists. repeat split.
   rewrite H0, H1. apply zrange_app. apply Hb; auto.
 Qed.
 
@@ -382,24 +380,29 @@ Proof.
   replace (Z.min c n) with c by lia. replace (Z.min n n) with n by lia. apply zrange_app. lia.
 Qed.
 
-Lemma leb_0 p : pct_ok p = true -> PrimFloat.leb 0 p = true.
-Proof. unfold pct_ok. intros H. apply andb_prop in H. tauto. Qed.
-Lemma leb_1 p : pct_ok p = true -> PrimFloat.leb p 1 = true.
-Proof. unfold pct_ok. intros H. apply andb_prop in H. tauto. Qed.
-
-Lemma subset_percent_partition cut n p q :
-  cut_contract cut n -> pct_ok p = true -> pct_ok q = true -> PrimFloat.leb p q = true ->
+Lemma subset_percent_partition {P} (O : pct_ops P) n p q :
+  pct_contract O n -> p_ok O p = true -> p_ok O q = true -> p_leb O p q = true ->
+  p_cut O false p n <= p_cut O false q n ->
   exists A B D,
-    subset_percent_g cut n None (Some p) = Some A /\
-    subset_percent_g cut n (Some p) (Some q) = Some B /\
-    subset_percent_g cut n (Some q) None = Some D /\
+    subset_percent_g O n None (Some p) = Some A /\
+    subset_percent_g O n (Some p) (Some q) = Some B /\
+    subset_percent_g O n (Some q) None = Some D /\
     A ++ B ++ D = zrange 0 n.
 Proof.
-  intros (H0 & H1 & Hb & Hm) Hp Hq Hle. unfold subset_percent_g. cbn [odflt is_some orb negb].
-  rewrite Hp, Hq, pct_ok_0, pct_ok_1, Hle, (leb_0 p Hp), (leb_1 q Hq). cbn [andb negb].
+  intros (Hz & Ho & Hl & H0 & H1 & Hb) Hp Hq Hle Hm. unfold subset_percent_g. cbn [odflt is_some orb negb].
+  rewrite Hp, Hq, Hz, Ho, Hle, (proj1 (Hl p Hp)), (proj2 (Hl q Hq)). cbn [andb negb].
   do 3 eexists. repeat split. rewrite H0, H1. apply three_blocks.
-  pose proof (Hb false p Hp). pose proof (Hm p q Hp Hq Hle). lia. apply Hb; auto.
+  pose proof (Hb false p Hp). lia. apply Hb; auto.
 Qed.
+
+(* an exact instance of the percent operations: percents as fractions a/b (b > 0), the cut is
+   floor / ceil of a*n/b.  It meets the contract for every n >= 0 (non-vacuity of the contract,
+   and the ideal the binary64 instance approximates). *)
+Definition rat_ops : pct_ops (Z * Z) :=
+  {| p_zero := (0, 1); p_one := (1, 1);
+     p_ok := fun '(a, b) => (0 <? b) && (0 <=? a) && (a <=? b);
+     p_leb := fun '(a, b) '(c, d) => a * d <=? c * b;
+     p_cut := fun ceil '(a, b) n => if ceil then (a * n + b - 1) / b else a * n / b |}.
 
 (* ------------------------------------------------------------------ *)
 (* ShuffleWrapper                                                      *)
@@ -659,4 +662,991 @@ Lemma cntf_blocks_single f (g : Z -> list Z) C' c0 :
 Proof.
   intros. apply cntf_concat_map_single. apply zrange_nodup. now apply In_zrange.
   intros c Hc. apply In_zrange in Hc. auto.
+Qed.
+
+(* ------------------------------------------------------------------ *)
+(* OversamplingWrapper                                                 *)
+(* ------------------------------------------------------------------ *)
+Lemma occ_zrange i a b : occ i (zrange a b) = if (a <=? i) && (i <? b) then 1 else 0.
+Proof.
+  rewrite occ_nodup by apply zrange_nodup.
+  destruct (in_dec Z.eq_dec i (zrange a b)) as [H|H]; rewrite In_zrange in H;
+    destruct (Z.leb_spec a i), (Z.ltb_spec i b); simpl; lia.
+Qed.
+
+Lemma ids_of_counts classes C' : zrange 0 (zlen (counts_of classes C')) = zrange 0 C'.
+Proof.
+  unfold counts_of, zlen. rewrite map_length, zrange_length.
+  replace (Z.of_nat (Z.to_nat (C' - 0))) with (Z.max 0 C') by lia. apply zrange_max0.
+Qed.
+
+Definition mult_blocks (classes : list Z) (C' : Z) : list Z :=
+  concat (map (fun c => multiply_block classes (mxc classes C') c (count_of c classes)) (zrange 0 C')).
+
+Lemma oversample_multiply_eq classes C counts :
+  class_counts classes C = Some counts ->
+  oversample false classes C = Some (all_ids classes ++ mult_blocks classes (n_classes_eff C)).
+Proof.
+  intros H. unfold oversample. rewrite H. apply class_counts_inv in H. subst counts.
+  cbv zeta. rewrite ids_of_counts. unfold counts_of at 2. rewrite combine_map_self, map_map. reflexivity.
+Qed.
+
+Lemma oversample_some_counts ex classes C out :
+  oversample ex classes C = Some out -> exists counts, class_counts classes C = Some counts.
+Proof. unfold oversample. destruct (class_counts classes C). eauto. discriminate. Qed.
+
+Lemma occ_multiply_block classes mx i c :
+  occ i (multiply_block classes mx c (count_of c classes)) =
+  if (0 <=? i) && (i <? zlen classes) && (cls classes i =? c)
+  then Z.max 0 (mx / count_of c classes - 1) else 0.
+Proof.
+  unfold multiply_block. destruct (Z.eqb_spec (count_of c classes) 0).
+  - rewrite e, Zdiv_0_r. destruct (_ && _); reflexivity.
+  - destruct (Z.ltb_spec 0 (mx / count_of c classes - 1)).
+    + rewrite occ_cntf, cntf_concat_repeat, <- occ_cntf, occ_positions. destruct (_ && _); lia.
+    + destruct (_ && _); rewrite occ_cntf, cntf_nil; lia.
+Qed.
+
+Lemma class_occ_multiply_block classes mx c c' :
+  class_occ classes c (multiply_block classes mx c' (count_of c' classes)) =
+  if c =? c' then count_of c classes * Z.max 0 (mx / count_of c classes - 1) else 0.
+Proof.
+  unfold multiply_block. destruct (Z.eqb_spec (count_of c' classes) 0).
+  - rewrite class_occ_cntf, cntf_nil. destruct (Z.eqb_spec c c'); subst; lia.
+  - destruct (Z.ltb_spec 0 (mx / count_of c' classes - 1)).
+    + rewrite class_occ_cntf, cntf_concat_repeat, <- class_occ_cntf, class_occ_positions.
+      destruct (Z.eqb_spec c c'); subst; lia.
+    + rewrite class_occ_cntf, cntf_nil. destruct (Z.eqb_spec c c'); subst; lia.
+Qed.
+
+Lemma oversample_multiply_occ classes C out i :
+  oversample false classes C = Some out ->
+  0 <= i < zlen classes -> 0 <= cls classes i < n_classes_eff C ->
+  occ i out = mxc classes (n_classes_eff C) / count_of (cls classes i) classes.
+Proof.
+  intros H Hi Hc. destruct (oversample_some_counts _ _ _ _ H) as (counts & Hcc).
+  rewrite (oversample_multiply_eq _ _ _ Hcc) in H. inversion H; subst out; clear H.
+  rewrite occ_cntf, cntf_app, <- !occ_cntf. unfold all_ids at 1. rewrite occ_zrange.
+  unfold mult_blocks. rewrite occ_cntf, (cntf_blocks_single _ _ _ (cls classes i)), <- occ_cntf; auto.
+  - rewrite occ_multiply_block.
+    pose proof (count_of_cls_pos classes i Hi). pose proof (count_le_mxc classes _ _ Hc).
+    rewrite Z.eqb_refl. destruct (Z.leb_spec 0 i), (Z.ltb_spec i (zlen classes)); cbn [andb]; lia.
+  - intros c Hcr Hne. rewrite <- occ_cntf, occ_multiply_block.
+    destruct (Z.eqb_spec (cls classes i) c). congruence. now rewrite andb_false_r.
+Qed.
+
+Lemma oversample_multiply_class_occ classes C out c :
+  oversample false classes C = Some out -> 0 <= c < n_classes_eff C -> 0 < count_of c classes ->
+  let mx := mxc classes (n_classes_eff C) in
+  class_occ classes c out = count_of c classes * (mx / count_of c classes) /\
+  mx < 2 * class_occ classes c out /\ class_occ classes c out <= mx.
+Proof.
+  intros H Hc Hpos mx. destruct (oversample_some_counts _ _ _ _ H) as (counts & Hcc).
+  rewrite (oversample_multiply_eq _ _ _ Hcc) in H. inversion H; subst out; clear H.
+  pose proof (count_le_mxc classes _ _ Hc). fold mx in H.
+  assert (E : class_occ classes c (all_ids classes ++ mult_blocks classes (n_classes_eff C))
+              = count_of c classes * (mx / count_of c classes)).
+  { rewrite class_occ_cntf, cntf_app, <- !class_occ_cntf, class_occ_all_ids.
+    unfold mult_blocks. rewrite class_occ_cntf, (cntf_blocks_single _ _ _ c), <- class_occ_cntf; auto.
+    - rewrite class_occ_multiply_block, Z.eqb_refl. fold mx.
+      assert (1 <= mx / count_of c classes) by (apply Z.div_le_lower_bound; lia). nia.
+    - intros c' Hcr Hne. rewrite <- class_occ_cntf, class_occ_multiply_block.
+      destruct (Z.eqb_spec c c'); congruence. }
+  rewrite E. split. reflexivity.
+  assert (1 <= mx / count_of c classes) by (apply Z.div_le_lower_bound; lia).
+  pose proof (Z.div_mod mx (count_of c classes)). pose proof (Z.mod_pos_bound mx (count_of c classes) Hpos).
+  assert (count_of c classes <= count_of c classes * (mx / count_of c classes)) by nia. lia.
+Qed.
+
+Lemma oversample_multiply_absent classes C out c :
+  oversample false classes C = Some out -> count_of c classes = 0 -> class_occ classes c out = 0.
+Proof.
+  intros H Hz. destruct (oversample_some_counts _ _ _ _ H) as (counts & Hcc).
+  rewrite (oversample_multiply_eq _ _ _ Hcc) in H. inversion H; subst out; clear H.
+  rewrite class_occ_cntf, cntf_app, <- !class_occ_cntf, class_occ_all_ids, Hz.
+  unfold mult_blocks. rewrite class_occ_cntf, cntf_concat_map_zero. reflexivity.
+  intros c' _. rewrite <- class_occ_cntf, class_occ_multiply_block. destruct (c =? c'); lia.
+Qed.
+
+Lemma oversample_multiply_prefix classes C out :
+  oversample false classes C = Some out -> exists extra, out = all_ids classes ++ extra.
+Proof.
+  intros H. destruct (oversample_some_counts _ _ _ _ H) as (counts & Hcc).
+  rewrite (oversample_multiply_eq _ _ _ Hcc) in H. inversion H. eauto.
+Qed.
+
+(* ---- mode = "exact" ---- *)
+Lemma zlen_firstn {A} k (l : list A) : zlen (firstn k l) = Z.min (Z.of_nat k) (zlen l).
+Proof. unfold zlen. rewrite firstn_length. lia. Qed.
+
+Lemma exact_loop_spec idxs : 0 < zlen idxs -> forall fuel R, 0 <= R < Z.of_nat fuel ->
+  exact_loop fuel idxs R
+  = Some (concat (repeat idxs (Z.to_nat (R / zlen idxs))) ++ firstn (Z.to_nat (R mod zlen idxs)) idxs).
+Proof.
+  intros HL. induction fuel; intros R HR. lia.
+  cbn [exact_loop]. destruct (Z.leb_spec R 0).
+  - assert (R = 0) by lia. subst. rewrite Z.div_0_l, Z.mod_0_l by lia. reflexivity.
+  - destruct (Z.ltb_spec R (zlen idxs)).
+    + rewrite zlen_firstn. replace (R - Z.min (Z.of_nat (Z.to_nat R)) (zlen idxs)) with 0 by lia.
+      rewrite IHfuel by lia. rewrite Z.div_0_l, Z.mod_0_l by lia.
+      rewrite Z.div_small, Z.mod_small by lia. simpl. now rewrite app_nil_r.
+    + rewrite firstn_all2 by (unfold zlen in *; lia).
+      assert (E1 : R / zlen idxs = (R - zlen idxs) / zlen idxs + 1)
+        by (rewrite <- Z.div_add by lia; f_equal; lia).
+      assert (E2 : R mod zlen idxs = (R - zlen idxs) mod zlen idxs)
+        by (rewrite <- (Z.mod_add (R - zlen idxs) 1 (zlen idxs)) by lia; f_equal; lia).
+      rewrite IHfuel by lia. rewrite E1, E2.
+      assert (0 <= (R - zlen idxs) / zlen idxs) by (apply Z.div_pos; lia).
+      replace (Z.to_nat ((R - zlen idxs) / zlen idxs + 1)) with (S (Z.to_nat ((R - zlen idxs) / zlen idxs))) by lia.
+      simpl. now rewrite app_assoc.
+Qed.
+
+(* why the guard for absent classes is needed: without it the loop of an absent class
+   makes no progress, whatever the fuel *)
+Lemma exact_loop_empty_diverges : forall fuel R, 0 < R -> exact_loop fuel [] R = None.
+Proof.
+  induction fuel; intros. reflexivity.
+  cbn [exact_loop]. destruct (Z.leb_spec R 0). lia.
+  rewrite firstn_nil. replace (R - zlen (@nil Z)) with R by (unfold zlen; simpl; lia).
+  now rewrite IHfuel.
+Qed.
+
+Definition exact_block_val (classes : list Z) (mx c : Z) : list Z :=
+  let pos := positions c classes in
+  let cnt := count_of c classes in
+  if cnt =? 0 then []
+  else concat (repeat pos (Z.to_nat (mx / cnt))) ++ firstn (Z.to_nat (mx mod cnt)) pos.
+
+Lemma exact_block_eq classes mx c :
+  0 <= mx -> exact_block classes mx c (count_of c classes) = Some (exact_block_val classes mx c).
+Proof.
+  intros. unfold exact_block, exact_block_val. cbv zeta.
+  destruct (Z.eqb_spec (count_of c classes) 0). reflexivity.
+  pose proof (count_of_nonneg c classes).
+  rewrite exact_loop_spec; rewrite ?zlen_positions; try lia. reflexivity.
+Qed.
+
+Lemma concat_opt_map_some {A} (g : Z -> option (list A)) (h : Z -> list A) l :
+  (forall c, In c l -> g c = Some (h c)) -> concat_opt (map g l) = Some (concat (map h l)).
+Proof.
+  induction l; intros. reflexivity.
+  simpl. rewrite H by (now left). rewrite IHl. reflexivity. intros. apply H. now right.
+Qed.
+
+Lemma oversample_exact_eq classes C counts :
+  class_counts classes C = Some counts ->
+  oversample true classes C =
+  if mxc classes (n_classes_eff C) =? 0 then None
+  else Some (concat (map (exact_block_val classes (mxc classes (n_classes_eff C))) (zrange 0 (n_classes_eff C)))).
+Proof.
+  intros H. unfold oversample. rewrite H. apply class_counts_inv in H. subst counts.
+  cbv zeta. fold (mxc classes (n_classes_eff C)).
+  destruct (mxc classes (n_classes_eff C) =? 0). reflexivity.
+  rewrite ids_of_counts. unfold counts_of. rewrite combine_map_self, map_map.
+  apply concat_opt_map_some. intros. apply exact_block_eq. apply zmax_nonneg.
+Qed.
+
+Lemma exact_terminates_l classes C counts :
+  class_counts classes C = Some counts ->
+  (oversample true classes C = None <-> mxc classes (n_classes_eff C) = 0).
+Proof.
+  intros H. rewrite (oversample_exact_eq _ _ _ H).
+  destruct (Z.eqb_spec (mxc classes (n_classes_eff C)) 0); split; intros; congruence.
+Qed.
+
+Lemma exact_succeeds_l classes C :
+  classes <> [] -> labels_in classes (n_classes_eff C) -> exists out, oversample true classes C = Some out.
+Proof.
+  intros Hne Hl. pose proof (class_counts_some classes C Hl) as Hcc.
+  rewrite (oversample_exact_eq _ _ _ Hcc). pose proof (mxc_pos classes _ Hne Hl).
+  destruct (Z.eqb_spec (mxc classes (n_classes_eff C)) 0). lia. eauto.
+Qed.
+
+Lemma In_exact_block_val classes mx c x : In x (exact_block_val classes mx c) -> In x (positions c classes).
+Proof.
+  unfold exact_block_val. cbv zeta. destruct (_ =? 0). intros [].
+  intros H. apply in_app_or in H. destruct H as [H|H].
+  - apply in_concat in H. destruct H as (l & Hl & Hx). apply repeat_spec in Hl. now subst.
+  - rewrite <- (firstn_skipn (Z.to_nat (mx mod count_of c classes)) (positions c classes)).
+    apply in_or_app. now left.
+Qed.
+
+Lemma zlen_exact_block_val classes mx c :
+  0 <= mx -> 0 < count_of c classes -> zlen (exact_block_val classes mx c) = mx.
+Proof.
+  intros. unfold exact_block_val. cbv zeta. destruct (Z.eqb_spec (count_of c classes) 0). lia.
+  rewrite zlen_app, zlen_concat_repeat, zlen_firstn, zlen_positions.
+  assert (0 <= mx / count_of c classes) by (apply Z.div_pos; lia).
+  pose proof (Z.mod_pos_bound mx (count_of c classes) H0).
+  pose proof (Z.div_mod mx (count_of c classes)). nia.
+Qed.
+
+Lemma class_occ_exact_block_val classes mx c c' :
+  0 <= mx ->
+  class_occ classes c (exact_block_val classes mx c') =
+  if (c =? c') && negb (count_of c classes =? 0) then mx else 0.
+Proof.
+  intros. rewrite class_occ_cntf. destruct (Z.eqb_spec c c').
+  - subst c'. destruct (Z.eqb_spec (count_of c classes) 0); simpl.
+    + unfold exact_block_val. cbv zeta. rewrite e, Z.eqb_refl. reflexivity.
+    + rewrite cntf_all. apply zlen_exact_block_val; auto. pose proof (count_of_nonneg c classes). lia.
+      intros x Hx. apply In_exact_block_val, In_positions in Hx. lia.
+  - simpl. apply cntf_none. intros x Hx. apply In_exact_block_val, In_positions in Hx. lia.
+Qed.
+
+Lemma occ_exact_block_val_other classes mx c i : cls classes i <> c -> occ i (exact_block_val classes mx c) = 0.
+Proof.
+  intros. rewrite occ_cntf. apply cntf_none. intros x Hx. apply In_exact_block_val, In_positions in Hx.
+  destruct (Z.eqb_spec i x); auto. subst. lia.
+Qed.
+
+Lemma occ_exact_block_val_own classes mx i :
+  0 <= mx -> 0 <= i < zlen classes ->
+  let q := mx / count_of (cls classes i) classes in
+  q <= occ i (exact_block_val classes mx (cls classes i)) <= q + 1.
+Proof.
+  intros Hmx Hi q. pose proof (count_of_cls_pos classes i Hi).
+  unfold exact_block_val. cbv zeta. destruct (Z.eqb_spec (count_of (cls classes i) classes) 0). lia.
+  rewrite occ_cntf, cntf_app, cntf_concat_repeat.
+  assert (E : cntf (Z.eqb i) (positions (cls classes i) classes) = 1).
+  { rewrite <- occ_cntf, occ_positions, Z.eqb_refl.
+    destruct (Z.leb_spec 0 i), (Z.ltb_spec i (zlen classes)); simpl; lia. }
+  rewrite E.
+  pose proof (cntf_firstn_le (Z.eqb i) (Z.to_nat (mx mod count_of (cls classes i) classes)) (positions (cls classes i) classes)).
+  pose proof (cntf_nonneg (Z.eqb i) (firstn (Z.to_nat (mx mod count_of (cls classes i) classes)) (positions (cls classes i) classes))).
+  assert (0 <= q) by (apply Z.div_pos; lia). fold q. lia.
+Qed.
+
+Lemma oversample_exact_class_occ classes C out c :
+  oversample true classes C = Some out -> 0 <= c < n_classes_eff C ->
+  class_occ classes c out = if count_of c classes =? 0 then 0 else mxc classes (n_classes_eff C).
+Proof.
+  intros H Hc. destruct (oversample_some_counts _ _ _ _ H) as (counts & Hcc).
+  rewrite (oversample_exact_eq _ _ _ Hcc) in H. destruct (_ =? 0) in H. discriminate.
+  inversion H; subst out; clear H.
+  rewrite class_occ_cntf, (cntf_blocks_single _ _ _ c), <- class_occ_cntf; auto.
+  - rewrite class_occ_exact_block_val by apply zmax_nonneg. rewrite Z.eqb_refl.
+    destruct (count_of c classes =? 0); reflexivity.
+  - intros c' Hcr Hne. rewrite <- class_occ_cntf, class_occ_exact_block_val by apply zmax_nonneg.
+    destruct (Z.eqb_spec c c'). congruence. reflexivity.
+Qed.
+
+Lemma oversample_exact_occ classes C out i :
+  oversample true classes C = Some out ->
+  0 <= i < zlen classes -> 0 <= cls classes i < n_classes_eff C ->
+  let q := mxc classes (n_classes_eff C) / count_of (cls classes i) classes in
+  1 <= q /\ q <= occ i out <= q + 1.
+Proof.
+  intros H Hi Hc q. destruct (oversample_some_counts _ _ _ _ H) as (counts & Hcc).
+  rewrite (oversample_exact_eq _ _ _ Hcc) in H. destruct (_ =? 0) in H. discriminate.
+  inversion H; subst out; clear H.
+  pose proof (count_of_cls_pos classes i Hi). pose proof (count_le_mxc classes _ _ Hc).
+  split. apply Z.div_le_lower_bound; lia.
+  rewrite occ_cntf, (cntf_blocks_single _ _ _ (cls classes i)), <- occ_cntf; auto.
+  - apply occ_exact_block_val_own; auto. apply zmax_nonneg.
+  - intros c Hcr Hne. rewrite <- occ_cntf. apply occ_exact_block_val_other. congruence.
+Qed.
+
+(* ------------------------------------------------------------------ *)
+(* IntraClassShuffleWrapper                                            *)
+(* ------------------------------------------------------------------ *)
+(* generator contract: rng.permutation(x) is a permutation of x, one call per class 0..C-1 *)
+Definition intra_draws_ok (classes : list Z) (C : Z) (draws : list (list Z)) : Prop :=
+  Forall2 (fun c d => Permutation d (positions c classes)) (zrange 0 C) draws.
+
+Lemma length_set_nth {A} k (y : A) l : length (set_nth k y l) = length l.
+Proof. revert k. induction l; intros; destruct k; simpl; auto. Qed.
+
+Lemma nth_set_nth_eq {A} k (y d : A) l : (k < length l)%nat -> nth k (set_nth k y l) d = y.
+Proof. revert k. induction l; intros; destruct k; simpl in *; try lia; auto. apply IHl. lia. Qed.
+
+Lemma nth_set_nth_neq {A} k j (y d : A) l : k <> j -> nth k (set_nth j y l) d = nth k l d.
+Proof. revert k j. induction l; intros; destruct k, j; simpl; auto; try congruence. Qed.
+
+Lemma concat_set_nth_perm {A} (perms : list (list A)) : forall j x rest,
+  nth_error perms j = Some (x :: rest) -> Permutation (x :: concat (set_nth j rest perms)) (concat perms).
+Proof.
+  induction perms; intros; destruct j; simpl in *; try discriminate.
+  - inversion H. subst. reflexivity.
+  - etransitivity. apply Permutation_middle. apply Permutation_app_head. now apply IHperms.
+Qed.
+
+Lemma concat_all_nil {A} (l : list (list A)) : (forall k, (k < length l)%nat -> nth k l [] = []) -> concat l = [].
+Proof.
+  induction l; intros. reflexivity.
+  pose proof (H 0%nat ltac:(simpl; lia)) as E. simpl in E. subst a.
+  simpl. apply IHl. intros. apply (H (S k)). simpl. lia.
+Qed.
+
+Lemma nth_error_nth_some {A} (l : list A) k d : (k < length l)%nat -> nth_error l k = Some (nth k l d).
+Proof. revert k. induction l; intros; destruct k; simpl in *; try lia; auto. apply IHl. lia. Qed.
+
+Lemma count_of_cons c x r : count_of c (x :: r) = (if c =? x then 1 else 0) + count_of c r.
+Proof. rewrite !count_of_cntf. apply cntf_cons. Qed.
+
+Lemma intra_go_ok (Q : Z -> Z -> Prop) : forall r perms,
+  (forall c, In c r -> 0 <= c < zlen perms) ->
+  (forall k, (k < length perms)%nat -> zlen (nth k perms []) = count_of (Z.of_nat k) r) ->
+  (forall k x, In x (nth k perms []) -> Q (Z.of_nat k) x) ->
+  exists out, intra_go r perms = Some out /\ Permutation out (concat perms) /\ Forall2 (fun o c => Q c o) out r.
+Proof.
+  induction r as [|c r IH]; intros perms Hr Hlen HQ.
+  - exists []. split. reflexivity. split; [|constructor].
+    rewrite concat_all_nil. constructor. intros k Hk. specialize (Hlen k Hk).
+    destruct (nth k perms []). reflexivity. rewrite zlen_cons in Hlen. pose proof (zlen_nonneg l).
+    exfalso. change (count_of (Z.of_nat k) []) with 0 in Hlen. lia.
+  - assert (Hc : 0 <= c < zlen perms) by (apply Hr; now left).
+    assert (Hk : (Z.to_nat c < length perms)%nat) by (unfold zlen in Hc; lia).
+    cbn [intra_go]. destruct (Z.ltb_spec c 0). lia.
+    rewrite (nth_error_nth_some perms (Z.to_nat c) [] Hk).
+    pose proof (Hlen _ Hk) as Hl. rewrite Z2Nat.id in Hl by lia. rewrite count_of_cons, Z.eqb_refl in Hl.
+    pose proof (count_of_nonneg c r).
+    destruct (nth (Z.to_nat c) perms []) as [|x rest] eqn:Ep.
+    { change (zlen (@nil Z)) with 0 in Hl. lia. }
+    rewrite zlen_cons in Hl.
+    destruct (IH (set_nth (Z.to_nat c) rest perms)) as (out & Ho & Hp & Hf).
+    + intros c' Hc'. unfold zlen. rewrite length_set_nth. apply Hr. now right.
+    + intros k Hk'. rewrite length_set_nth in Hk'. destruct (Nat.eq_dec k (Z.to_nat c)).
+      * subst k. rewrite nth_set_nth_eq by auto. rewrite Z2Nat.id by lia. lia.
+      * rewrite nth_set_nth_neq by auto. rewrite (Hlen k Hk'), count_of_cons.
+        destruct (Z.eqb_spec (Z.of_nat k) c); lia.
+    + intros k y Hy. apply HQ. destruct (Nat.eq_dec k (Z.to_nat c)).
+      * subst k. rewrite nth_set_nth_eq in Hy by auto. rewrite Ep. now right.
+      * now rewrite nth_set_nth_neq in Hy by auto.
+    + rewrite Ho. exists (x :: out). split. reflexivity. split.
+      * etransitivity. apply perm_skip, Hp. apply concat_set_nth_perm.
+        rewrite (nth_error_nth_some perms (Z.to_nat c) [] Hk). now rewrite Ep.
+      * constructor; auto. rewrite <- (Z2Nat.id c) by lia. apply HQ. rewrite Ep. now left.
+Qed.
+
+Lemma Forall2_nth {A B} (R : A -> B -> Prop) l1 l2 d1 d2 :
+  Forall2 R l1 l2 -> forall k, (k < length l1)%nat -> R (nth k l1 d1) (nth k l2 d2).
+Proof. induction 1; intros k Hk; destruct k; simpl in *; try lia; auto. apply IHForall2. lia. Qed.
+
+Lemma Forall2_length {A B} (R : A -> B -> Prop) l1 l2 : Forall2 R l1 l2 -> length l1 = length l2.
+Proof. induction 1; simpl; auto. Qed.
+
+Lemma Forall2_perm_concat (g : Z -> list Z) l ds :
+  Forall2 (fun c d => Permutation d (g c)) l ds -> Permutation (concat ds) (concat (map g l)).
+Proof. induction 1; simpl. constructor. now apply Permutation_app. Qed.
+
+Lemma Forall2_map_eq {A B} (f : A -> B) out l : Forall2 (fun o c => f o = c) out l -> map f out = l.
+Proof. induction 1; simpl; congruence. Qed.
+
+Lemma intra_class_l classes C draws :
+  labels_in classes C -> intra_draws_ok classes C draws ->
+  exists out, intra_class_shuffle classes C draws = Some out /\
+              Permutation out (all_ids classes) /\ map (cls classes) out = classes.
+Proof.
+  intros Hl Hd. unfold intra_class_shuffle.
+  pose proof (Forall2_length _ _ _ Hd) as Hlen. rewrite zrange_length in Hlen.
+  replace (Z.to_nat (C - 0)) with (Z.to_nat C) in Hlen by lia.
+  rewrite <- Hlen, Nat.eqb_refl. cbn [negb].
+  destruct (intra_go_ok (fun c o => cls classes o = c) classes draws) as (out & Ho & Hp & Hf).
+  - intros c Hc. unfold labels_in in Hl. rewrite Forall_forall in Hl. specialize (Hl c Hc). unfold zlen. lia.
+  - intros k Hk. pose proof (Forall2_nth _ _ _ 0 [] Hd k) as Hn. rewrite zrange_length in Hn.
+    specialize (Hn ltac:(lia)). cbv beta in Hn. rewrite zrange_nth in Hn by (rewrite zrange_length; lia).
+    apply Permutation_length in Hn. unfold zlen. rewrite Hn, length_positions.
+    pose proof (count_of_nonneg (0 + Z.of_nat k) classes). simpl in *. lia.
+  - intros k x Hx. destruct (Nat.lt_ge_cases k (length draws)).
+    + pose proof (Forall2_nth _ _ _ 0 [] Hd k) as Hn. rewrite zrange_length in Hn.
+      specialize (Hn ltac:(lia)). cbv beta in Hn. rewrite zrange_nth in Hn by (rewrite zrange_length; lia).
+      eapply Permutation_in in Hx; eauto. apply In_positions in Hx. simpl in Hx. lia.
+    + rewrite nth_overflow in Hx by lia. destruct Hx.
+  - exists out. split. assumption. split.
+    + etransitivity. apply Hp. etransitivity. apply Forall2_perm_concat, Hd. apply (blocks_perm classes C Hl).
+    + now apply Forall2_map_eq.
+Qed.
+
+(* ------------------------------------------------------------------ *)
+(* FewshotWrapper                                                      *)
+(* ------------------------------------------------------------------ *)
+Definition fewshot_nc (classes : list Z) : Z := zmax (map (fun c => c + 1) classes).
+
+(* generator contract: rng.permutation(k) is a permutation of 0..k-1, one call per class 0..max *)
+Definition fewshot_draws_ok (classes : list Z) (draws : list (list Z)) : Prop :=
+  Forall2 (fun c d => Permutation d (zrange 0 (count_of c classes))) (zrange 0 (fewshot_nc classes)) draws.
+
+Definition fewshot_block (classes : list Z) (shots : Z) (c : Z) (perm : list Z) : list Z :=
+  map (fun j => nth (Z.to_nat j) (positions c classes) 0) (firstn (Z.to_nat shots) perm).
+
+Lemma nodup_firstn {A} k (l : list A) : NoDup l -> NoDup (firstn k l).
+Proof.
+  revert k. induction l; intros; destruct k; simpl; try constructor.
+  - inversion H; subst. intro Hin. apply H2.
+    rewrite <- (firstn_skipn k l). apply in_or_app. now left.
+  - inversion H; auto.
+Qed.
+
+Lemma In_firstn {A} k (l : list A) x : In x (firstn k l) -> In x l.
+Proof. intros. rewrite <- (firstn_skipn k l). apply in_or_app. now left. Qed.
+
+Lemma nodup_map_in {A B} (f : A -> B) l :
+  NoDup l -> (forall x y, In x l -> In y l -> f x = f y -> x = y) -> NoDup (map f l).
+Proof.
+  induction 1; intros; simpl; constructor.
+  - intro Hin. apply in_map_iff in Hin. destruct Hin as (y & E & Hy).
+    assert (y = x) by (apply H1; simpl; auto). subst. contradiction.
+  - apply IHNoDup. intros. apply H1; simpl; auto.
+Qed.
+
+Lemma nodup_app {A} (a b : list A) : NoDup a -> NoDup b -> (forall x, In x a -> ~ In x b) -> NoDup (a ++ b).
+Proof.
+  induction 1; intros; simpl. assumption.
+  constructor. intro Hin. apply in_app_or in Hin. destruct Hin. contradiction. apply (H2 x); simpl; auto.
+  apply IHNoDup; auto. intros. apply H2. now right.
+Qed.
+
+Lemma fewshot_block_ok classes shots c perm :
+  0 <= shots -> Permutation perm (zrange 0 (count_of c classes)) ->
+  let b := fewshot_block classes shots c perm in
+  zlen b = Z.min shots (count_of c classes) /\ NoDup b /\ (forall x, In x b -> In x (positions c classes)).
+Proof.
+  intros Hs Hp b. pose proof (count_of_nonneg c classes) as Hcn.
+  assert (Hin : forall j, In j perm -> (Z.to_nat j < length (positions c classes))%nat /\ 0 <= j).
+  { intros j Hj. eapply Permutation_in in Hj; eauto. apply In_zrange in Hj. rewrite length_positions. lia. }
+  split; [|split].
+  - unfold b, fewshot_block, zlen. rewrite map_length, firstn_length.
+    apply Permutation_length in Hp. rewrite Hp, zrange_length. lia.
+  - apply nodup_map_in.
+    + apply nodup_firstn. eapply Permutation_NoDup. symmetry; eauto. apply zrange_nodup.
+    + intros x y Hx Hy E. apply In_firstn, Hin in Hx. apply In_firstn, Hin in Hy.
+      apply (proj1 (NoDup_nth (positions c classes) 0)) in E; try tauto. lia. apply positions_nodup.
+  - intros x Hx. apply in_map_iff in Hx. destruct Hx as (j & <- & Hj). apply In_firstn, Hin in Hj.
+    apply nth_In. tauto.
+Qed.
+
+Lemma fewshot_blocks_eq classes shots draws :
+  classes <> [] -> length draws = Z.to_nat (fewshot_nc classes) ->
+  fewshot classes shots draws
+  = Some (concat (map (fun '(c, perm) => fewshot_block classes shots c perm)
+                      (combine (zrange 0 (fewshot_nc classes)) draws))).
+Proof.
+  intros Hne Hlen. unfold fewshot. destruct classes. congruence.
+  fold (fewshot_nc (z :: classes)). rewrite Hlen, Nat.eqb_refl. reflexivity.
+Qed.
+
+(* per-class blocks given as a Forall2 over the class list *)
+Definition block_of (classes : list Z) (g : Z -> Z) (c : Z) (b : list Z) : Prop :=
+  zlen b = g c /\ NoDup b /\ (forall x, In x b -> In x (positions c classes)).
+
+Lemma blocks_class_occ classes g l bs :
+  Forall2 (block_of classes g) l bs -> NoDup l ->
+  forall c0, class_occ classes c0 (concat bs) = if in_dec Z.eq_dec c0 l then g c0 else 0.
+Proof.
+  induction 1 as [|c b l bs (Hlen & _ & Hin) _ IH]; intros Hnd c0. reflexivity.
+  inversion Hnd; subst. simpl concat. rewrite class_occ_cntf, cntf_app, <- !class_occ_cntf, IH by auto.
+  rewrite class_occ_cntf. destruct (Z.eq_dec c0 c).
+  - subst c0. rewrite cntf_all. destruct (in_dec Z.eq_dec c l). contradiction.
+    destruct (in_dec Z.eq_dec c (c :: l)). lia. exfalso. apply n0. now left.
+    intros x Hx. apply Hin, In_positions in Hx. lia.
+  - rewrite cntf_none. destruct (in_dec Z.eq_dec c0 l), (in_dec Z.eq_dec c0 (c :: l)); try lia.
+    exfalso. apply n0. now right. destruct i; congruence.
+    intros x Hx. apply Hin, In_positions in Hx. lia.
+Qed.
+
+Lemma blocks_in classes g l bs x :
+  Forall2 (block_of classes g) l bs -> In x (concat bs) -> exists c, In c l /\ In x (positions c classes).
+Proof.
+  induction 1 as [|c b l bs (_ & _ & Hin) _ IH]; simpl; intros Hx. destruct Hx.
+  apply in_app_or in Hx. destruct Hx. exists c. auto. destruct (IH H) as (c' & ? & ?). exists c'. auto.
+Qed.
+
+Lemma blocks_nodup classes g l bs :
+  Forall2 (block_of classes g) l bs -> NoDup l -> NoDup (concat bs).
+Proof.
+  induction 1 as [|c b l bs (Hlen & Hnb & Hin) Hrest IH]; intros Hnd. constructor.
+  inversion Hnd; subst. simpl. apply nodup_app; auto.
+  intros x Hx Hx'. destruct (blocks_in _ _ _ _ _ Hrest Hx') as (c' & Hc' & Hp).
+  apply Hin, In_positions in Hx. apply In_positions in Hp. assert (c' = c) by lia. subst. contradiction.
+Qed.
+
+Lemma blocks_grouped classes g l bs :
+  Forall2 (block_of classes g) l bs -> StronglySorted Z.lt l ->
+  StronglySorted (fun i j => cls classes i <= cls classes j) (concat bs).
+Proof.
+  induction 1 as [|c b l bs (Hlen & Hnb & Hin) Hrest IH]; intros Hs. constructor.
+  inversion Hs; subst. simpl. apply sorted_app; auto.
+  - clear -Hin. assert (forall x, In x b -> cls classes x = c) by (intros x Hx; apply Hin, In_positions in Hx; lia).
+    clear Hin. induction b. constructor. constructor. apply IHb. intros. apply H. now right.
+    apply Forall_forall. intros y Hy. rewrite (H a), (H y); simpl; auto. lia.
+  - intros x y Hx Hy. destruct (blocks_in _ _ _ _ _ Hrest Hy) as (c' & Hc' & Hp).
+    apply Hin, In_positions in Hx. apply In_positions in Hp. rewrite Forall_forall in H2. specialize (H2 c' Hc'). lia.
+Qed.
+
+Lemma fewshot_blocks_forall2 classes shots l draws :
+  0 <= shots ->
+  Forall2 (fun c d => Permutation d (zrange 0 (count_of c classes))) l draws ->
+  Forall2 (block_of classes (fun c => Z.min shots (count_of c classes))) l
+          (map (fun '(c, perm) => fewshot_block classes shots c perm) (combine l draws)).
+Proof.
+  intros Hs. induction 1; simpl; constructor; auto.
+  unfold block_of. now apply fewshot_block_ok.
+Qed.
+
+Lemma fewshot_l classes shots draws :
+  classes <> [] -> 0 <= shots -> fewshot_draws_ok classes draws ->
+  exists out, fewshot classes shots draws = Some out /\
+    NoDup out /\ (forall x, In x out -> 0 <= x < zlen classes) /\
+    StronglySorted (fun i j => cls classes i <= cls classes j) out /\
+    (forall c, 0 <= c < fewshot_nc classes -> class_occ classes c out = Z.min shots (count_of c classes)) /\
+    (forall c, ~ (0 <= c < fewshot_nc classes) -> class_occ classes c out = 0).
+Proof.
+  intros Hne Hs Hd. unfold fewshot_draws_ok in Hd.
+  pose proof (Forall2_length _ _ _ Hd) as Hlen. rewrite zrange_length in Hlen.
+  rewrite fewshot_blocks_eq by (auto; rewrite <- Hlen; f_equal; lia).
+  pose proof (fewshot_blocks_forall2 classes shots _ _ Hs Hd) as HB.
+  eexists. split. reflexivity. split; [|split; [|split; [|split]]].
+  - eapply blocks_nodup; eauto. apply zrange_nodup.
+  - intros x Hx. destruct (blocks_in _ _ _ _ _ HB Hx) as (c & _ & Hp). apply In_positions in Hp. tauto.
+  - eapply blocks_grouped; eauto. apply zrange_sorted.
+  - intros c Hc. rewrite (blocks_class_occ _ _ _ _ HB) by apply zrange_nodup.
+    destruct (in_dec Z.eq_dec c (zrange 0 (fewshot_nc classes))). reflexivity.
+    exfalso. apply n. now apply In_zrange.
+  - intros c Hc. rewrite (blocks_class_occ _ _ _ _ HB) by apply zrange_nodup.
+    destruct (in_dec Z.eq_dec c (zrange 0 (fewshot_nc classes))). apply In_zrange in i. tauto. reflexivity.
+Qed.
+
+(* every label of a non-negatively labelled dataset lies below max+1 *)
+Lemma fewshot_nc_covers classes c : In c classes -> c < fewshot_nc classes.
+Proof.
+  intros. assert (c + 1 <= fewshot_nc classes). apply zmax_ge. apply in_map_iff. eauto. lia.
+Qed.
+
+(* ------------------------------------------------------------------ *)
+(* ClasswiseSubsetWrapper                                              *)
+(* ------------------------------------------------------------------ *)
+Lemma firstn_split {A} (a d : nat) (l : list A) : firstn a l ++ firstn d (skipn a l) = firstn (a + d) l.
+Proof.
+  revert l. induction a; intros. reflexivity.
+  destruct l. simpl. now rewrite firstn_nil. simpl. now rewrite IHa.
+Qed.
+
+Lemma zlen_slice {A} (l : list A) s e : 0 <= s -> zlen (slice l s e) = Z.max 0 (Z.min (e - s) (zlen l - s)).
+Proof. intros. unfold slice, zlen. rewrite firstn_length, skipn_length. lia. Qed.
+
+Lemma slice_partition {A} (l : list A) k : 0 <= k -> slice l 0 k ++ slice l k (zlen l) = l.
+Proof.
+  intros. unfold slice. simpl skipn. rewrite Z.sub_0_r.
+  destruct (Z.leb_spec k (zlen l)).
+  - rewrite firstn_split. apply firstn_all2. unfold zlen in *. lia.
+  - replace (Z.to_nat (zlen l - k)) with 0%nat by lia. simpl. rewrite app_nil_r. apply firstn_all2. unfold zlen in *. lia.
+Qed.
+
+Lemma In_slice {A} (l : list A) s e x : In x (slice l s e) -> In x l.
+Proof.
+  unfold slice. intros H. apply In_firstn in H.
+  rewrite <- (firstn_skipn (Z.to_nat s) l). apply in_or_app. now right.
+Qed.
+
+Lemma slice_clip {A} (l : list A) s e : slice l s (Z.min e (zlen l)) = slice l s e.
+Proof.
+  unfold slice. destruct (Z.leb_spec e (zlen l)). now rewrite Z.min_l by lia.
+  rewrite Z.min_r by lia. rewrite !firstn_all2; auto; rewrite skipn_length; unfold zlen in *; lia.
+Qed.
+
+Lemma slice_beyond {A} (l : list A) s e : zlen l <= s -> slice l s e = [].
+Proof. intros. unfold slice. rewrite skipn_all2. apply firstn_nil. unfold zlen in *. lia. Qed.
+
+Lemma all_some_map {A} (g : Z -> option A) (h : Z -> A) l :
+  (forall c, In c l -> g c = Some (h c)) -> all_some (map g l) = Some (map h l).
+Proof.
+  induction l; intros. reflexivity. simpl. rewrite H by (now left). rewrite IHl. reflexivity.
+  intros. apply H. now right.
+Qed.
+
+Lemma all_some_none {A} (g : Z -> option A) l c : In c l -> g c = None -> all_some (map g l) = None.
+Proof.
+  induction l; intros. destruct H. simpl. destruct H.
+  - subst. now rewrite H0.
+  - destruct (g a). now rewrite IHl. reflexivity.
+Qed.
+
+(* the selection in canonical form: class after class, the samples of rank [s, e) inside the class *)
+Definition classwise_val (classes : list Z) (C : Z) (lo hi : Z -> Z) : list Z :=
+  concat (map (fun c => slice (positions c classes) (lo (count_of c classes)) (hi (count_of c classes))) (zrange 0 C)).
+
+Lemma classwise_range_eq classes C s e check :
+  labels_in classes (n_classes_eff C) -> is_some s || is_some e = true ->
+  let n := zlen classes in
+  let e' := Z.min (odflt e n) n in
+  let s' := odflt s 0 in
+  0 <= s' <= e' ->
+  classwise_range classes C s e check =
+  if check && existsb (fun c => count_of c classes <? e') (zrange 0 C) then None
+  else Some (classwise_val classes C (fun _ => s') (fun _ => e')).
+Proof.
+  intros Hl Hse n e' s' Hb. unfold classwise_range. rewrite (class_counts_some _ _ Hl), Hse.
+  cbn [negb]. fold n. fold e'. fold s'. destruct (Z.leb_spec s' e'); [|lia]. cbn [negb].
+  destruct (check && existsb (fun c => count_of c classes <? e') (zrange 0 C)) eqn:E.
+  - apply andb_prop in E. destruct E as (-> & E). apply existsb_exists in E. destruct E as (c & Hc & E).
+    rewrite (all_some_none _ _ c); auto. cbn [andb]. now rewrite E.
+  - rewrite (all_some_map _ (fun c => slice (positions c classes) s' e')). reflexivity.
+    intros c Hc.
+    assert (E2 : check && (count_of c classes <? e') = false).
+    { destruct check; auto. simpl in *. destruct (count_of c classes <? e') eqn:E3; auto.
+      assert (existsb (fun c => count_of c classes <? e') (zrange 0 C) = true)
+        by (apply existsb_exists; eauto). congruence. }
+    rewrite E2. destruct (Z.leb_spec (count_of c classes) s').
+    + now rewrite slice_beyond by (rewrite zlen_positions; lia).
+    + now rewrite <- zlen_positions, slice_clip.
+Qed.
+
+Lemma classwise_percent_eq {P} (O : pct_ops P) classes C s e :
+  labels_in classes (n_classes_eff C) -> is_some s || is_some e = true ->
+  p_ok O (odflt s (p_zero O)) = true -> p_ok O (odflt e (p_one O)) = true ->
+  p_leb O (odflt s (p_zero O)) (odflt e (p_one O)) = true ->
+  classwise_percent_g O classes C s e =
+  Some (classwise_val classes C (p_cut O false (odflt s (p_zero O))) (p_cut O false (odflt e (p_one O)))).
+Proof.
+  intros Hl Hse Hs He Hle. unfold classwise_percent_g.
+  rewrite (class_counts_some _ _ Hl), Hse, Hs, He, Hle. reflexivity.
+Qed.
+
+Lemma classwise_val_class_occ classes C lo hi c :
+  0 <= c < C -> 0 <= lo (count_of c classes) ->
+  class_occ classes c (classwise_val classes C lo hi)
+  = Z.max 0 (Z.min (hi (count_of c classes) - lo (count_of c classes)) (count_of c classes - lo (count_of c classes))).
+Proof.
+  intros Hc Hlo. unfold classwise_val.
+  rewrite class_occ_cntf, (cntf_blocks_single _ _ _ c); auto.
+  - rewrite cntf_all. rewrite zlen_slice, zlen_positions by auto. reflexivity.
+    intros x Hx. apply In_slice, In_positions in Hx. lia.
+  - intros c' _ Hne. apply cntf_none. intros x Hx. apply In_slice, In_positions in Hx. lia.
+Qed.
+
+Lemma classwise_val_sublist classes C lo hi x :
+  In x (classwise_val classes C lo hi) -> 0 <= x < zlen classes /\ 0 <= cls classes x < C.
+Proof.
+  unfold classwise_val. intros H. apply in_concat in H. destruct H as (l & Hl & Hx).
+  apply in_map_iff in Hl. destruct Hl as (c & <- & Hc). apply In_zrange in Hc.
+  apply In_slice, In_positions in Hx. lia.
+Qed.
+
+Lemma perm_concat_map_app (f g : Z -> list Z) l :
+  Permutation (concat (map f l) ++ concat (map g l)) (concat (map (fun c => f c ++ g c) l)).
+Proof.
+  induction l; simpl. constructor.
+  rewrite <- !app_assoc. apply Permutation_app_head.
+  etransitivity. apply Permutation_app_swap_app. apply Permutation_app_head. assumption.
+Qed.
+
+(* complementary class-wise selections partition the dataset, for every cut rank k (incl. 0) *)
+Lemma classwise_val_partition classes C (k : Z -> Z) :
+  labels_in classes C -> (forall m, 0 <= m -> 0 <= k m) ->
+  Permutation (classwise_val classes C (fun _ => 0) k ++ classwise_val classes C k (fun m => m)) (all_ids classes).
+Proof.
+  intros Hl Hk. unfold classwise_val. etransitivity. apply perm_concat_map_app.
+  etransitivity; [|apply (blocks_perm classes C Hl)]. unfold blocks.
+  apply Permutation_refl'. f_equal. apply map_ext. intros c.
+  pose proof (slice_partition (positions c classes) (k (count_of c classes)) (Hk _ (count_of_nonneg c classes))) as E.
+  rewrite zlen_positions in E. exact E.
+Qed.
+
+Lemma classwise_range_partition classes C k :
+  labels_in classes C -> labels_in classes (n_classes_eff C) -> 0 <= k <= zlen classes ->
+  exists A B, classwise_range classes C None (Some k) false = Some A /\
+              classwise_range classes C (Some k) None false = Some B /\
+              Permutation (A ++ B) (all_ids classes).
+Proof.
+  intros Hl Hl' Hk.
+  rewrite !classwise_range_eq; auto; cbn [odflt andb]; try lia.
+  do 2 eexists. split. reflexivity. split. reflexivity.
+  replace (Z.min k (zlen classes)) with k by lia. replace (Z.min (zlen classes) (zlen classes)) with (zlen classes) by lia.
+  etransitivity; [|apply (classwise_val_partition classes C (fun _ => k) Hl); intros; lia].
+  apply Permutation_app_head. apply Permutation_refl'. unfold classwise_val. f_equal. apply map_ext_in.
+  intros c _. rewrite <- (slice_clip _ k (zlen classes)), <- (slice_clip _ k (count_of c classes)), !zlen_positions.
+  f_equal. pose proof (cntf_le_len (Z.eqb c) classes). rewrite <- count_of_cntf in H. lia.
+Qed.
+
+Lemma classwise_percent_partition {P} (O : pct_ops P) classes C p :
+  labels_in classes C -> labels_in classes (n_classes_eff C) -> (forall m, 0 <= m -> pct_contract O m) ->
+  p_ok O p = true ->
+  exists A B, classwise_percent_g O classes C None (Some p) = Some A /\
+              classwise_percent_g O classes C (Some p) None = Some B /\
+              Permutation (A ++ B) (all_ids classes).
+Proof.
+  intros Hl Hl' Hcut Hp. destruct (Hcut 0 ltac:(lia)) as (Hz & Ho & Hle & _).
+  rewrite !classwise_percent_eq; auto; cbn [odflt]; auto; try apply Hle; auto.
+  do 2 eexists. split. reflexivity. split. reflexivity.
+  etransitivity; [|apply (classwise_val_partition classes C (p_cut O false p) Hl)].
+  - apply Permutation_refl'. unfold classwise_val. f_equal; f_equal; apply map_ext; intros c;
+      destruct (Hcut (count_of c classes) (count_of_nonneg c classes)) as (_ & _ & _ & H0 & H1 & _); now rewrite ?H0, ?H1.
+  - intros m Hm. destruct (Hcut m Hm) as (_ & _ & _ & _ & _ & Hb). apply Hb; auto.
+Qed.
+
+(* ------------------------------------------------------------------ *)
+(* the selection is a function of the arguments and the draws          *)
+(* ------------------------------------------------------------------ *)
+Lemma run_function {P} (O : pct_ops P) classes C w o1 o2 :
+  run_g O classes C w = o1 -> run_g O classes C w = o2 -> o1 = o2.
+Proof. congruence. Qed.
+
+Lemma oversample_keeps_all_l ex classes C out i :
+  oversample ex classes C = Some out -> labels_in classes (n_classes_eff C) ->
+  0 <= i < zlen classes -> 1 <= occ i out.
+Proof.
+  intros H Hl Hi. pose proof (labels_in_cls _ _ _ Hl Hi) as Hc. destruct ex.
+  - pose proof (oversample_exact_occ _ _ _ _ H Hi Hc). cbv zeta in *. lia.
+  - rewrite (oversample_multiply_occ _ _ _ _ H Hi Hc).
+    pose proof (count_of_cls_pos classes i Hi). pose proof (count_le_mxc classes _ _ Hc).
+    apply Z.div_le_lower_bound; lia.
+Qed.
+
+(* ------------------------------------------------------------------ *)
+(* the executable predicates of Spec.v mean what they say              *)
+(* ------------------------------------------------------------------ *)
+Lemma list_eqb_eq a b : list_eqb a b = true <-> a = b.
+Proof.
+  unfold list_eqb. revert b. induction a; destruct b; simpl; split; intros; try discriminate; auto.
+  - apply andb_prop in H. destruct H as (Hl & H). apply andb_prop in H. destruct H as (E & H).
+    apply Z.eqb_eq in E. subst. f_equal. apply IHa. now rewrite Hl, H.
+  - inversion H; subst. rewrite Z.eqb_refl. simpl. apply (IHa b). reflexivity.
+Qed.
+
+Lemma cntf_perm f l l' : Permutation l l' -> cntf f l = cntf f l'.
+Proof. induction 1; rewrite ?cntf_cons in *; lia. Qed.
+
+Lemma nodup_of_occ l : (forall x, occ x l <= 1) -> NoDup l.
+Proof.
+  induction l; intros. constructor. constructor.
+  - intro Hin. specialize (H a). rewrite occ_cntf, cntf_cons, Z.eqb_refl in H.
+    assert (0 < cntf (Z.eqb a) l) by (apply cntf_pos_In; exists a; split; auto; apply Z.eqb_refl). lia.
+  - apply IHl. intros x. specialize (H x). rewrite occ_cntf, cntf_cons in H. rewrite occ_cntf.
+    destruct (Z.eqb x a); lia.
+Qed.
+
+Lemma is_permutation_iff classes out : is_permutation classes out = true <-> Permutation out (all_ids classes).
+Proof.
+  unfold is_permutation, in_range. rewrite andb_true_iff, !forallb_forall. split.
+  - intros (Hr & Ho). apply NoDup_Permutation.
+    + apply nodup_of_occ. intros x. destruct (in_dec Z.eq_dec x out).
+      * specialize (Hr x i). assert (In x (all_ids classes)) by (apply In_zrange; lia).
+        specialize (Ho x H). lia.
+      * rewrite occ_cntf, cntf_none. lia. intros y Hy. destruct (Z.eqb_spec x y); congruence.
+    + apply zrange_nodup.
+    + intros x. split; intros Hx.
+      * specialize (Hr x Hx). apply In_zrange. lia.
+      * specialize (Ho x Hx). assert (0 < cntf (Z.eqb x) out) by (rewrite <- occ_cntf; lia).
+        apply cntf_pos_In in H. destruct H as (y & Hy & E). apply Z.eqb_eq in E. now subst.
+  - intros Hp. split.
+    + intros x Hx. eapply Permutation_in in Hx; eauto. apply In_zrange in Hx. lia.
+    + intros x Hx. rewrite occ_cntf, (cntf_perm _ _ _ Hp), <- occ_cntf. unfold all_ids in *.
+      rewrite occ_zrange. apply In_zrange in Hx.
+      destruct (Z.leb_spec 0 x), (Z.ltb_spec x (zlen classes)); simpl; lia.
+Qed.
+
+Lemma sorted_stable_iff classes out : sorted_stable classes out = true <-> StronglySorted (before classes) out.
+Proof.
+  split.
+  - intros H. apply Sorted_StronglySorted. intros x y z. apply before_trans.
+    induction out as [|i r IH]. constructor. simpl in H. destruct r as [|j r'].
+    + constructor; constructor.
+    + apply andb_prop in H. destruct H as (Hb & Hr). constructor. now apply IH.
+      constructor. unfold before. lia.
+  - intros H. apply StronglySorted_Sorted in H. induction H. reflexivity.
+    simpl. destruct l as [|j r']. reflexivity. inversion H0; subst. unfold before in H2.
+    rewrite IHSorted. destruct H2; lia.
+Qed.
+
+(* the stable sort is unique: a permutation of the ids sorted by `before` is sort_by_class *)
+Lemma sorted_perm_unique {A} (R : A -> A -> Prop) :
+  (forall x, ~ R x x) -> (forall x y, R x y -> R y x -> False) ->
+  forall l l', StronglySorted R l -> StronglySorted R l' -> Permutation l l' -> l = l'.
+Proof.
+  intros Hirr Hasym. induction l; intros l' Hs Hs' Hp.
+  - apply Permutation_nil in Hp. now subst.
+  - destruct l' as [|b l']. apply Permutation_sym, Permutation_nil in Hp. discriminate.
+    inversion Hs; subst. inversion Hs'; subst. rewrite Forall_forall in *.
+    assert (a = b).
+    { assert (Ha : In a (b :: l')) by (eapply Permutation_in; eauto; now left).
+      assert (Hb : In b (a :: l)) by (eapply Permutation_in; [symmetry; eauto|now left]).
+      destruct Ha as [|Ha]; auto. destruct Hb as [|Hb]; auto.
+      exfalso. apply (Hasym a b); auto. }
+    subst. f_equal. apply IHl; auto. eapply Permutation_cons_inv; eauto.
+Qed.
+
+Lemma stable_sort_unique classes C out :
+  labels_in classes C -> Permutation out (all_ids classes) -> StronglySorted (before classes) out ->
+  out = sort_by_class classes C.
+Proof.
+  intros Hl Hp Hs. destruct (sort_by_class_l classes C Hl) as (Hp' & Hs').
+  apply (sorted_perm_unique (before classes)); auto.
+  - apply before_irrefl.
+  - unfold before. intros. lia.
+  - etransitivity; eauto. now symmetry.
+Qed.
+
+Lemma rat_ops_contract n : 0 <= n -> pct_contract rat_ops n.
+Proof.
+  intros Hn. unfold pct_contract. cbn [rat_ops p_zero p_one p_ok p_leb p_cut].
+  split. reflexivity. split. reflexivity. split; [|split; [|split]].
+  - intros (a, b) H. lia.
+  - intros []. rewrite Z.div_1_r. lia. rewrite Z.div_1_r. lia.
+  - intros []; rewrite Z.div_1_r; lia.
+  - intros c (a, b) H.
+    assert (Hb : 0 < b) by lia. assert (Ha : 0 <= a <= b) by lia.
+    assert (0 <= a * n <= b * n) by nia.
+    destruct c.
+    + split. apply Z.div_pos; lia.
+      assert ((a * n + b - 1) / b < n + 1) by (apply Z.div_lt_upper_bound; nia). lia.
+    + split. apply Z.div_pos; lia. apply Z.div_le_upper_bound; nia.
+Qed.
+
+(* ------------------------------------------------------------------ *)
+(* conjunctions stated in Property.v                                   *)
+(* ------------------------------------------------------------------ *)
+Lemma ranges_contiguous_l :     (forall P (O : pct_ops P) n f t cf ct out, percent_filter_g O n f t cf ct = Some out ->
+        out = zrange (p_cut O cf (odflt f (p_zero O)) n) (p_cut O ct (odflt t (p_one O)) n)) /\
+    (forall n s e out, subset_range n s e = Some out ->
+        out = zrange (odflt s 0) (Z.min (odflt e n) n) /\ odflt s 0 <= Z.min (odflt e n) n) /\
+    (forall P (O : pct_ops P) n s e out, subset_percent_g O n s e = Some out ->
+        out = zrange (p_cut O false (odflt s (p_zero O)) n) (p_cut O false (odflt e (p_one O)) n)) /\
+    (* a block a .. b-1 *)
+    (forall a b, zlen (zrange a b) = Z.max 0 (b - a) /\
+                 forall k, (k < length (zrange a b))%nat -> nth k (zrange a b) 0 = a + Z.of_nat k).
+Proof.
+  exact (conj (@percent_filter_block) (conj subset_range_block (conj (@subset_percent_block) block_contiguous_l))).
+Qed.
+
+Lemma oversampling_balance_l : forall classes C out,
+    oversample false classes C = Some out ->
+    let mx := mxc classes (n_classes_eff C) in
+    (forall i, 0 <= i < zlen classes -> 0 <= cls classes i < n_classes_eff C ->
+               occ i out = mx / count_of (cls classes i) classes) /\
+    (forall c, 0 <= c < n_classes_eff C -> 0 < count_of c classes ->
+               class_occ classes c out = count_of c classes * (mx / count_of c classes) /\
+               mx < 2 * class_occ classes c out /\ class_occ classes c out <= mx) /\
+    (forall c, count_of c classes = 0 -> class_occ classes c out = 0).
+Proof.
+  intros classes C out H mx. split; [|split].
+  - intros. now apply oversample_multiply_occ.
+  - intros. now apply oversample_multiply_class_occ.
+  - intros. eapply oversample_multiply_absent; eauto.
+Qed.
+
+Lemma exact_reaches_max_l : forall classes C out,
+    oversample true classes C = Some out ->
+    let mx := mxc classes (n_classes_eff C) in
+    (forall c, 0 <= c < n_classes_eff C ->
+               class_occ classes c out = if count_of c classes =? 0 then 0 else mx) /\
+    (forall i, 0 <= i < zlen classes -> 0 <= cls classes i < n_classes_eff C ->
+               let q := mx / count_of (cls classes i) classes in 1 <= q /\ q <= occ i out <= q + 1).
+Proof.
+  intros classes C out H mx. split.
+  - intros. now apply oversample_exact_class_occ.
+  - intros. now apply oversample_exact_occ.
+Qed.
+
+Lemma classwise_counts_l : forall classes C s e check,
+    labels_in classes (n_classes_eff C) -> is_some s || is_some e = true ->
+    let n := zlen classes in
+    let e' := Z.min (odflt e n) n in
+    let s' := odflt s 0 in
+    0 <= s' <= e' ->
+    classwise_range classes C s e check =
+      (if check && existsb (fun c => count_of c classes <? e') (zrange 0 C) then None
+       else Some (classwise_val classes C (fun _ => s') (fun _ => e'))) /\
+    (forall c, 0 <= c < C ->
+       class_occ classes c (classwise_val classes C (fun _ => s') (fun _ => e'))
+       = Z.max 0 (Z.min (e' - s') (count_of c classes - s'))) /\
+    (forall x, In x (classwise_val classes C (fun _ => s') (fun _ => e')) ->
+       0 <= x < zlen classes /\ 0 <= cls classes x < C).
+Proof.
+  intros classes C s e check Hl Hse n e' s' Hb. split; [|split].
+  - now apply classwise_range_eq.
+  - intros c Hc. apply (classwise_val_class_occ classes C (fun _ => s') (fun _ => e') c Hc). lia.
+  - apply classwise_val_sublist.
+Qed.
+
+Lemma labels_in_b classes C : forallb (fun c => (0 <=? c) && (c <? C)) classes = true -> labels_in classes C.
+Proof. intros H. apply Forall_forall. intros x Hx. rewrite forallb_forall in H. specialize (H x Hx). lia. Qed.
+
+(* ------------------------------------------------------------------ *)
+(* model output satisfies the executable predicates of Spec.v          *)
+(* ------------------------------------------------------------------ *)
+Lemma sort_spec_bool classes C :
+  labels_in classes C ->
+  is_permutation classes (sort_by_class classes C) && sorted_stable classes (sort_by_class classes C) = true.
+Proof.
+  intros H. destruct (sort_by_class_l _ _ H). apply andb_true_intro. split.
+  now apply is_permutation_iff. now apply sorted_stable_iff.
+Qed.
+
+Lemma keeps_all_bool ex classes C out :
+  oversample ex classes C = Some out -> labels_in classes (n_classes_eff C) -> keeps_all classes out = true.
+Proof.
+  intros H Hl. unfold keeps_all. apply forallb_forall. intros i Hi. apply In_zrange in Hi.
+  pose proof (oversample_keeps_all_l _ _ _ _ i H Hl Hi). lia.
+Qed.
+
+Lemma balanced_multiply_bool classes C out :
+  oversample false classes C = Some out -> balanced_multiply classes (n_classes_eff C) out = true.
+Proof.
+  intros H. unfold balanced_multiply.
+  change (zmax (map (fun c => count_of c classes) (class_ids (n_classes_eff C)))) with (mxc classes (n_classes_eff C)).
+  apply forallb_forall. intros c Hc. apply In_zrange in Hc.
+  destruct (Z.eqb_spec (count_of c classes) 0).
+  - rewrite (oversample_multiply_absent _ _ _ _ H e). reflexivity.
+  - pose proof (count_of_nonneg c classes).
+    destruct (oversample_multiply_class_occ _ _ _ _ H Hc ltac:(lia)) as (_ & H1 & H2).
+    apply andb_true_intro. split. lia.
+    apply forallb_forall. intros i Hi. apply In_zrange in Hi.
+    destruct (Z.eqb_spec (cls classes i) c); auto. subst c.
+    rewrite (oversample_multiply_occ _ _ _ _ H Hi Hc). apply Z.eqb_refl.
+Qed.
+
+Lemma balanced_exact_bool classes C out :
+  oversample true classes C = Some out -> balanced_exact classes (n_classes_eff C) out = true.
+Proof.
+  intros H. unfold balanced_exact.
+  change (zmax (map (fun c => count_of c classes) (class_ids (n_classes_eff C)))) with (mxc classes (n_classes_eff C)).
+  apply forallb_forall. intros c Hc. apply In_zrange in Hc.
+  rewrite (oversample_exact_class_occ _ _ _ _ H Hc).
+  destruct (Z.eqb_spec (count_of c classes) 0). reflexivity.
+  rewrite Z.eqb_refl. cbn [andb].
+  apply forallb_forall. intros i Hi. apply In_zrange in Hi.
+  destruct (Z.eqb_spec (cls classes i) c); auto. subst c.
+  pose proof (oversample_exact_occ _ _ _ _ H Hi Hc). cbv zeta in *. lia.
+Qed.
+
+Lemma intra_spec_bool classes C draws out :
+  labels_in classes C -> intra_draws_ok classes C draws -> intra_class_shuffle classes C draws = Some out ->
+  is_permutation classes out && list_eqb (map (cls classes) out) classes = true.
+Proof.
+  intros Hl Hd Ho. destruct (intra_class_l _ _ _ Hl Hd) as (out' & Ho' & Hp & Hm).
+  rewrite Ho in Ho'. inversion Ho'; subst out'. apply andb_true_intro. split.
+  now apply is_permutation_iff. now apply list_eqb_eq.
+Qed.
+
+(* ---- the class-wise selection in the vocabulary of Spec.v: rank of a sample inside its class ---- *)
+Lemma slice_snoc {A} (L : list A) x s e :
+  0 <= s -> slice (L ++ [x]) s e = slice L s e ++ (if (s <=? zlen L) && (zlen L <? e) then [x] else []).
+Proof.
+  intros Hs. unfold slice. rewrite skipn_app, firstn_app, skipn_length. f_equal.
+  unfold zlen. destruct (Z.leb_spec s (Z.of_nat (length L))), (Z.ltb_spec (Z.of_nat (length L)) e); cbn [andb].
+  - replace (Z.to_nat s - length L)%nat with 0%nat by lia. cbn [skipn].
+    destruct (Z.to_nat (e - s) - (length L - Z.to_nat s))%nat eqn:E. lia. simpl. now rewrite firstn_nil.
+  - replace (Z.to_nat (e - s) - (length L - Z.to_nat s))%nat with 0%nat by lia. reflexivity.
+  - destruct (Z.to_nat s - length L)%nat eqn:E. lia. simpl. rewrite skipn_nil. apply firstn_nil.
+  - destruct (Z.to_nat s - length L)%nat eqn:E. lia. simpl. rewrite skipn_nil. apply firstn_nil.
+Qed.
+
+Lemma rank_slice classes c s e : 0 <= s -> forall m : nat,
+  filter (fun i => (cls classes i =? c) && (s <=? rank classes i) && (rank classes i <? e)) (zrange 0 (Z.of_nat m))
+  = slice (filter (fun i => cls classes i =? c) (zrange 0 (Z.of_nat m))) s e.
+Proof.
+  intros Hs. induction m.
+  - simpl. unfold slice. now rewrite skipn_nil, firstn_nil.
+  - rewrite Nat2Z.inj_succ. unfold Z.succ. rewrite zrange_snoc by lia. rewrite !filter_app, IHm. cbn [filter].
+    destruct (Z.eqb_spec (cls classes (Z.of_nat m)) c).
+    + rewrite slice_snoc by auto. f_equal. unfold rank. rewrite e0. cbn [andb]. reflexivity.
+    + cbn [andb]. now rewrite !app_nil_r.
+Qed.
+
+Lemma classwise_val_spec classes C lo hi :
+  (forall m, 0 <= m -> 0 <= lo m) -> classwise_val classes C lo hi = spec_classwise classes lo hi C.
+Proof.
+  intros Hlo. unfold classwise_val, spec_classwise, class_ids. f_equal. apply map_ext. intros c.
+  rewrite positions_filter. unfold all_ids, zlen. symmetry. apply rank_slice. apply Hlo, count_of_nonneg.
 Qed.
